@@ -5,6 +5,7 @@ import DtailModel.Lemmas.Command
 import DtailModel.Lemmas.GenOptions
 import DtailModel.Lemmas.OptionOrder
 import DtailModel.Lemmas.GenRegex
+import DtailModel.Lemmas.GenSerialize
 set_option autoImplicit false
 namespace Dtail.C12
 open Dtail
@@ -271,5 +272,30 @@ theorem C12_generated_options_any_order (ext : Go.Ext) (env : Env) (he : GenOpti
     ∃ m gl, Gen.Config.DeserializeOptions ext (ys.map (OptionOrder.render show')) = Outcome.ok (m, gl, none) ∧
       GenOptions.ltxOf gl = r.ltx ∧ GenOptions.modesOfMap m = (r.quiet, r.plain, r.serverless) :=
   GenOptions.generated_any_order ext env he show' hc r ys hp
+
+/-! ### Tie G: the client's `Args.SerializeOptions` as translated from the working tree on this run -/
+
+/-- **The options a client serialises are the options the server decodes — both ends as translated from the working tree.**
+    `Args.SerializeOptions` (internal/config/args.go) collects the options in a Go map and ranges over it; assuming only that
+    the iteration visits a permutation of the entries, the serialised text is the ':'-join of the request's rendered options
+    in some order `ys`, and the translated `DeserializeOptions` decodes exactly that list to the request's line context and
+    session modes — for every option combination, every integer value, every iteration order, every behaviour of
+    `base64` / `strconv.Atoi` that the codec hypothesis allows. -/
+theorem C12_generated_client_options_reach_server (ext : Go.Ext) (env : Env) (he : GenOptions.ExtIs ext env)
+    (hc : IntCodec ext.fmtInt) (hperm : ∀ l, (ext.mapOrder l).Perm l) (a : Gen.ClientArgs.Args) :
+    ∃ ys : List OptionOrder.Opt, ys.Perm (OptionOrder.optsOf (GenSerialize.reqOf a)) ∧
+      (Gen.ClientArgs.Args.SerializeOptions ext a).2 = joinByte COLON (ys.map (OptionOrder.render ext.fmtInt)) ∧
+      ∃ m gl, Gen.Config.DeserializeOptions ext (ys.map (OptionOrder.render ext.fmtInt)) = Outcome.ok (m, gl, none) ∧
+        GenOptions.ltxOf gl = (GenSerialize.reqOf a).ltx ∧
+        GenOptions.modesOfMap m = (a.Quiet, a.Plain, a.Serverless) := by
+  obtain ⟨ys, hys, hs⟩ := GenSerialize.SerializeOptions_spec ext hperm a
+  obtain ⟨m, gl, hd, hl, hm⟩ := GenOptions.generated_any_order ext env he ext.fmtInt hc (GenSerialize.reqOf a) ys hys
+  exact ⟨ys, hys, by rw [hs], m, gl, hd, hl, hm⟩
+
+/-- non-vacuity: quiet, max 5 and before 2, the map visited backwards -/
+example :
+    let ext : Go.Ext := { parseFloat := fun _ => (0, none), mapOrder := List.reverse, fmtInt := fun n => if n = 5 then b!"5" else b!"2" }
+    (Gen.ClientArgs.Args.SerializeOptions ext { LContext := ⟨0, 2, 5⟩, Quiet := true }).2 = b!"before=2:max=5:quiet=true" := by
+  decide
 
 end Dtail.C12
